@@ -6,6 +6,9 @@
        expressions have cut the text into fields, and get_address.
    Definitions only.
 
+   As of /repo 03838d6 the constructor also rejects m > n and account indexes outside
+   [0, 2^31), stores the fingerprint in lower case and the path as "m" + path.strip()[1:].
+
    Text is a [list Z] of code points.  The constants (both charsets, the constants
    of calc_poly_mod) come from Generated/DescConsts.v, which harness/gen_coq_c16.py
    regenerates from the source of descriptor.py on every check run.
@@ -122,6 +125,17 @@ Fixpoint sort_by (l : list A) : list A :=
   end.
 End Sort.
 
+(* str.lower() and str.strip() on ASCII text: A-Z -> a-z; strip removes 9..13 and 28..32 *)
+Definition lower_c (c : Z) : Z := if (65 <=? c) && (c <=? 90) then c + 32 else c.
+Definition lower (s : list Z) : list Z := map lower_c s.
+Definition is_ws (c : Z) : bool := ((9 <=? c) && (c <=? 13)) || ((28 <=? c) && (c <=? 32)).
+Fixpoint lstrip (s : list Z) : list Z :=
+  match s with
+  | c :: r => if is_ws c then lstrip r else s
+  | [] => []
+  end.
+Definition strip (s : list Z) : list Z := rev (lstrip (rev (lstrip s))).
+
 (* is_valid_xfp_hex: len(s) == 8 and re.match("^[0-9a-f]*$", s.lower()).
    `$` also matches just before a trailing "\n" (Python re), which is mirrored.
    str.lower() maps exactly A-F onto a-f among the characters that end up in [0-9a-f]. *)
@@ -162,19 +176,25 @@ Variable path_ok : list Z -> bool.
 Variable hdparse : list Z -> result (list Z * Z).
 Variable child_ok : list Z -> Z -> bool.
 
+(* the account index the constructor accepts: an int in [0, 2^31) *)
+Definition idx_ok (i : Z) : bool := (0 <=? i) && (i <? 2147483648).
+
 (* the `for key_record in key_records` loop of __init__; [net] is the network of the
-   records seen so far (None before the first) *)
+   records seen so far (None before the first).  The saved record has the path rewritten to
+   "m" + path.strip()[1:] and the fingerprint in lower case. *)
 Fixpoint check_recs (net : option Z) (l : list keyrec) : result (list keyrec * option Z) :=
   match l with
   | [] => Ok ([], net)
   | kr :: r =>
       if negb (path_ok (kr_path kr)) then Err else
       if negb (xfp_ok (kr_xfp kr)) then Err else
+      if negb (idx_ok (kr_idx kr)) then Err else
       '(xp, n) <- hdparse (kr_xpub kr) ;;
       let same := match net with None => true | Some n0 => n0 =? n end in
       if negb same then Err else
       '(rs, nf) <- check_recs (Some (match net with None => n | Some n0 => n0 end)) r ;;
-      Ok ({| kr_xfp := kr_xfp kr; kr_path := kr_path kr; kr_xpub := xp; kr_idx := kr_idx kr |} :: rs, nf)
+      Ok ({| kr_xfp := lower (kr_xfp kr); kr_path := 109 :: tl (strip (kr_path kr)); kr_xpub := xp;
+             kr_idx := kr_idx kr |} :: rs, nf)
   end.
 
 (* P2WSHSortedMulti.__init__(quorum_m, key_records, checksum, sort_key_records) *)
@@ -182,6 +202,7 @@ Definition construct (m : Z) (recs : list keyrec) (checksum : list Z) (sort_flag
   : result desc :=
   if m <? 1 then Err else
   match recs with [] => Err | _ =>
+    if m >? zlen recs then Err else
     '(rs, net) <- check_recs None recs ;;
     let rs := if sort_flag then sort_by kr_xpub rs else rs in
     let text := render_text m rs in
